@@ -255,6 +255,8 @@ pub fn take_probes() -> Vec<(&'static str, u64)> {
 
 pub const BUGGIFY_SKIP_COMPRESSION: u32 = 1;
 pub const BUGGIFY_NO_TRIVIAL_GROUP_FASTPATH: u32 = 2;
+/// `union_leaders` deprecates the other class (the choice is a heuristic, either is legal)
+pub const BUGGIFY_FLIP_MERGE_DIRECTION: u32 = 4;
 
 /// Enables the cooperative fault points in `mask`; each enabled site fires with
 /// probability 1/2 per visit, decided by a PRNG seeded with `seed`.
